@@ -1,15 +1,16 @@
 SPECIFICATION Spec
 CONSTANTS
   NI = 3
-  NV = 4
+  NV = 3
   NP = 2
   BufModes = {0, 2}
-  Ks = {1, 2, 3}
+  Ks = {1, 3}
   MaxOps = 99
   MaxVer = 2
   MaxBatch = 2
   BatchVecs = {1, 2}
   FConsolidateTombstones = FALSE
+  ConsolidateBatch = 0
   FBufferBlind = FALSE
 VIEW View
 INVARIANTS TypeOK GetOK QueryOK IndexOK EmitDone
